@@ -297,6 +297,8 @@ pub struct ReadSpec<'a> {
     pub verifiers: Vec<&'static str>,
     pub max: usize,
     pub streaming_v1: bool,
+    /// SEIPDv1 default mode with an explicit `max_message_size`
+    pub v1_limit: Option<usize>,
 }
 
 /// Run the real reader over `input` and drain it with the consumer script.
@@ -326,11 +328,14 @@ pub fn read_message<R: BufRead + std::fmt::Debug + Send>(input: R, spec: &ReadSp
         let r = match &spec.opener {
             Opener::None => Ok(msg),
             Opener::SessionKey(sk) => {
-                if spec.streaming_v1 {
+                if spec.streaming_v1 || spec.v1_limit.is_some() {
+                    let mode = match spec.v1_limit {
+                        Some(l) if !spec.streaming_v1 => pgp::types::Seipdv1ReadMode::CheckFirst { max_message_size: l },
+                        _ => pgp::types::Seipdv1ReadMode::Streaming,
+                    };
                     let ring = pgp::composed::TheRing {
                         session_keys: vec![sk.clone()],
-                        decrypt_options: pgp::composed::DecryptionOptions::new()
-                            .set_seipdv1_read_mode(pgp::types::Seipdv1ReadMode::Streaming),
+                        decrypt_options: pgp::composed::DecryptionOptions::new().set_seipdv1_read_mode(mode),
                         ..Default::default()
                     };
                     msg.decrypt_the_ring(ring, true).map(|(m, _)| m)
